@@ -153,6 +153,16 @@ class Module:
                     self._consts[tgt] = fold(val, self._consts)
                 except _Unfoldable:
                     self._consts.pop(tgt, None)
+                    # NAME = helper(): a table built by a module-level initialiser function (loops over folded tables
+                    # filling a local dict / list) is folded by evaluating that function on constants
+                    if isinstance(val, ast.Call) and isinstance(val.func, ast.Name) and not val.keywords and val.func.id in self.defs:
+                        fns = [x for x in self.defs[val.func.id] if isinstance(x, ast.FunctionDef)]
+                        if len(fns) == 1:
+                            try:
+                                args = [fold(a, self._consts) for a in val.args]
+                                self._consts[tgt] = eval_initialiser(fns[0], args, self._consts)
+                            except _Unfoldable:
+                                pass
 
     def table_function(self, qual: str) -> Dict[Any, Any]:
         """A function of the form ``return {K: V, ...}[arg]`` -> the folded dict
@@ -187,6 +197,14 @@ class SymName(str):
         return f"SymName({str.__repr__(self)})"
 
 
+class SymLambda(SymName):
+    """a lambda kept symbolically inside a folded table (its text; the node is kept for the evaluator)"""
+    node: Any = None
+
+    def __repr__(self) -> str:
+        return f"SymLambda({str.__repr__(self)})"
+
+
 class _SymEnv(dict):
     """environment in which unknown plain names / dotted names evaluate to SymName"""
 
@@ -200,6 +218,108 @@ class _SymEnv(dict):
         if dict.__contains__(self, k):
             return dict.__getitem__(self, k)
         return SymName(k)
+
+
+class _Ret(Exception):
+    def __init__(self, v):
+        self.v = v
+
+
+def eval_initialiser(fn: ast.FunctionDef, args: List[Any], consts: Dict[str, Any], budget: int = 20000) -> Any:
+    """Evaluates a module-level initialiser function on constant arguments with the analyser's own evaluator: straight-line
+    assignments, for-loops over folded iterables, if with folded tests, stores into / method calls on local containers,
+    return.  Anything else is _Unfoldable.  (This is constant propagation through an initialiser, not execution of repo
+    code: every expression goes through fold().)"""
+    params = [a.arg for a in fn.args.args]
+    if fn.args.vararg or fn.args.kwarg or fn.args.kwonlyargs or len(args) > len(params) or fn.decorator_list:
+        raise _Unfoldable("signature")
+    env: Dict[str, Any] = dict(consts)
+    defaults = fn.args.defaults
+    for i, p in enumerate(params):
+        if i < len(args):
+            env[p] = args[i]
+        else:
+            j = i - (len(params) - len(defaults))
+            if j < 0:
+                raise _Unfoldable("missing argument")
+            env[p] = fold(defaults[j], consts)
+    steps = [0]
+
+    def ev(e: ast.AST) -> Any:
+        # local mutable containers are kept as Python dict / list / set objects in env
+        if isinstance(e, ast.Name) and e.id in env:
+            return env[e.id]
+        if isinstance(e, ast.Dict) and not e.keys:
+            return {}
+        if isinstance(e, ast.List) and not e.elts:
+            return []
+        if isinstance(e, ast.Call) and isinstance(e.func, ast.Name) and e.func.id in ("dict", "list", "set") and not e.args and not e.keywords:
+            return {"dict": dict, "list": list, "set": set}[e.func.id]()
+        return fold(e, _SymEnv(env) if False else env)
+
+    def assign(t: ast.AST, v: Any) -> None:
+        if isinstance(t, ast.Name):
+            env[t.id] = v
+        elif isinstance(t, (ast.Tuple, ast.List)):
+            vs = list(v)
+            if len(vs) != len(t.elts):
+                raise _Unfoldable("unpack")
+            for tt, vv in zip(t.elts, vs):
+                assign(tt, vv)
+        elif isinstance(t, ast.Subscript) and isinstance(t.value, ast.Name) and isinstance(env.get(t.value.id), (dict, list)):
+            env[t.value.id][ev(t.slice)] = v
+        else:
+            raise _Unfoldable("target")
+
+    def run(body: List[ast.stmt]) -> None:
+        for st in body:
+            steps[0] += 1
+            if steps[0] > budget:
+                raise _Unfoldable("budget")
+            if isinstance(st, ast.Expr) and isinstance(st.value, ast.Constant):
+                continue
+            if isinstance(st, ast.Assign):
+                v = ev(st.value)
+                for t in st.targets:
+                    assign(t, v)
+            elif isinstance(st, ast.AnnAssign):
+                if st.value is not None:
+                    assign(st.target, ev(st.value))
+            elif isinstance(st, ast.For) and not st.orelse:
+                it = ev(st.iter)
+                if isinstance(it, dict):
+                    it = tuple(it)
+                if not isinstance(it, (tuple, list, frozenset)):
+                    raise _Unfoldable("iter")
+                for x in list(it):
+                    assign(st.target, x)
+                    run(st.body)
+            elif isinstance(st, ast.If):
+                run(st.body if ev(st.test) else st.orelse)
+            elif isinstance(st, ast.Expr) and isinstance(st.value, ast.Call) and isinstance(st.value.func, ast.Attribute) and isinstance(st.value.func.value, ast.Name) \
+                    and isinstance(env.get(st.value.func.value.id), (dict, list, set)) and st.value.func.attr in ("append", "add", "update", "setdefault", "extend") and not st.value.keywords:
+                getattr(env[st.value.func.value.id], st.value.func.attr)(*[ev(a) for a in st.value.args])
+            elif isinstance(st, ast.Return):
+                raise _Ret(ev(st.value) if st.value is not None else None)
+            elif isinstance(st, ast.Pass):
+                continue
+            else:
+                raise _Unfoldable(type(st).__name__)
+
+    try:
+        run(fn.body)
+    except _Ret as r:
+        v = r.v
+        if isinstance(v, list):
+            return tuple(v)
+        if isinstance(v, set):
+            return frozenset(v)
+        return v
+    except _Unfoldable:
+        raise
+    except Exception as e:
+        raise _Unfoldable(f"initialiser: {type(e).__name__}")
+    return None
 
 
 def _is_member_ref(e: ast.AST, env: Dict[str, Any]) -> bool:
@@ -229,6 +349,10 @@ def fold(node: ast.AST, env: Dict[str, Any]) -> Any:
             else:
                 out2[fold(k, env)] = fold(v, _SymEnv(env))
         return out2
+    if isinstance(node, ast.Lambda) and isinstance(env, _SymEnv):
+        sl = SymLambda(ast.unparse(node))
+        sl.node = node
+        return sl
     if isinstance(node, ast.Attribute) and isinstance(env, _SymEnv):
         base = fold(node.value, env)
         if isinstance(base, SymName):
